@@ -635,11 +635,11 @@ func Run(c *corr.Ctx) {
 	for i := 0; i < n; i++ {
 		r.raw(g.raw(), fmt.Sprintf("raw-%d", i))
 	}
-	n = c.N(150, 3000)
+	n = c.N(300, 3000)
 	for i := 0; i < n; i++ {
 		r.serverCase(g.server(), fmt.Sprintf("server-%d", i))
 	}
-	n = c.N(40, 800)
+	n = c.N(60, 800)
 	for i := 0; i < n; i++ {
 		r.clientCase(g.client(), fmt.Sprintf("client-%d", i))
 	}
